@@ -305,7 +305,9 @@ impl<'c, 's> Run<'c, 's> {
     /// report an oracle failure
     pub fn viol(&mut self, p: Prop, sig: String, msg: String) {
         if p != self.prof.prop {
-            *self.st.other_prop_alarms.entry(p.id()).or_insert(0) += 1;
+            if !self.known.is_open(&sig) {
+                *self.st.other_prop_alarms.entry(p.id()).or_insert(0) += 1;
+            }
             return;
         }
         if self.known.is_open(&sig) {
@@ -376,7 +378,7 @@ impl<'c, 's> Run<'c, 's> {
         let mut guard = 0;
         loop {
             guard += 1;
-            if self.halt || guard > 600 {
+            if self.halt || guard > 3000 {
                 break;
             }
             if !self.pending.is_empty() {
@@ -393,7 +395,7 @@ impl<'c, 's> Run<'c, 's> {
             }
             break;
         }
-        if guard > 600 {
+        if guard > 3000 {
             self.st.probe("drain-guard-hit");
         }
     }
